@@ -616,7 +616,10 @@ class TOC(object):
 
     @classmethod
     def _segment_pattern(cls, indexname):
-        return re.compile("(%s_[0-9a-z]+)[.][A-Za-z0-9_.]+" % indexname)
+        # Any extension: the column files of a loose segment carry the field
+        # name ("<segment>.<fieldname>.col"), which is not limited to ASCII
+        # letters, digits and underscores
+        return re.compile("(%s_[0-9a-z]+)[.]" % indexname)
 
     @classmethod
     def _latest_generation(cls, storage, indexname):
